@@ -326,7 +326,7 @@ class Server:
         self.proc = None
         self.argv_tail = argv_tail
 
-    def start(self):
+    def start(self, startup_timeout=5):
         for attempt in range(5):
             self.port = free_port()
             mport = free_port()
@@ -341,7 +341,7 @@ class Server:
             c = Client(self.port)
             ok = False
             t0 = time.time()
-            while time.time() - t0 < 5 and self.proc.poll() is None:
+            while time.time() - t0 < startup_timeout and self.proc.poll() is None:
                 if c.ask(["probe", "invalid"], 1, tries=1) is not None:
                     ok = True
                     break
@@ -649,7 +649,7 @@ def overlapping_reloads(run_dir):
     fails = []
     info = {"overlap_reloads": 0}
     try:
-        if not srv.start():
+        if not srv.start(startup_timeout=90):
             return [core.Failure("harness", "the server did not start on the large hosts configuration", None, None, None, found_input=False)], info
         c = Client(srv.port)
         labels = ["overlap", "test"]
